@@ -3,6 +3,7 @@ mod c02;
 mod c03;
 mod syncmsg;
 mod c05;
+mod c06;
 mod c08;
 mod c09;
 mod c10;
@@ -79,6 +80,7 @@ fn main() {
         "C02" => run(c02::C02::new(listed_findings("C02")), &args, 3000, 60000),
         "C03" => run(c03::C03::new(), &args, 1500, 40000),
         "C05" => run(c05::C05::new(), &args, 2500, 40000),
+        "C06" => run(c06::C06::new(), &args, 250, 4000),
         "C08" => run(c08::C08::new(), &args, 700, 20000),
         "C09" => run(c09::C09::new(), &args, 400, 8000),
         "C10" => run(c10::C10::new(), &args, 300, 5000),
